@@ -185,7 +185,7 @@ Ltac evf :=
         le_encode be_encode le_decode be_decode wrap pow2 to_usize N.add N.sub N.mul N.modulo N.leb N.ltb N.eqb concat rev].
 
 Ltac solve_len :=
-  try unfold splice;
+  try unfold splice; unfold block in *;
   repeat rewrite ?be_encode_length, ?le_encode_length;
   repeat rewrite ?app_length, ?xorb_length, ?firstn_length, ?skipn_length, ?upd_nth_length, ?map_length,
                  ?map2_length, ?repeat_length;
@@ -195,13 +195,25 @@ Ltac solve_len :=
   repeat rewrite ?app_length, ?xorb_length, ?firstn_length, ?skipn_length, ?be_encode_length, ?le_encode_length;
   lia.
 
+(* discharge one visible bound check (a closed instance; instances under binders are skipped) *)
+Ltac check1 :=
+  match goal with
+  | |- context [in_range ?a ?b] => rewrite (in_range_true a b) by solve_len
+  | |- context [fits ?a ?b ?c] => rewrite (fits_true a b c) by solve_len
+  | |- context [len_eq ?a ?b] => first [rewrite (len_eq_true a b) by solve_len | rewrite (len_eq_false a b) by solve_len]
+  | |- context [le_ok ?a ?b] => rewrite (le_ok_true a b) by solve_len
+  end.
+Ltac check1_in H :=
+  match type of H with
+  | context [in_range ?a ?b] => rewrite (in_range_true a b) in H by solve_len
+  | context [fits ?a ?b ?c] => rewrite (fits_true a b c) in H by solve_len
+  | context [len_eq ?a ?b] => first [rewrite (len_eq_true a b) in H by solve_len | rewrite (len_eq_false a b) in H by solve_len]
+  | context [le_ok ?a ?b] => rewrite (le_ok_true a b) in H by solve_len
+  end.
+
 (* evaluate, discharging the bound checks that become visible *)
-Ltac ev_checks :=
-  ev;
-  repeat (progress (rewrite ?in_range_true, ?fits_true, ?len_eq_true, ?le_ok_true, ?len_eq_false by solve_len); ev).
-Ltac evf_checks :=
-  evf;
-  repeat (progress (rewrite ?in_range_true, ?fits_true, ?len_eq_true, ?le_ok_true, ?len_eq_false by solve_len); evf).
+Ltac ev_checks := ev; repeat (progress (repeat check1); ev).
+Ltac evf_checks := evf; repeat (progress (repeat check1); evf).
 
 Ltac ev_in H :=
   cbv -[deref_deep for_each loopN xor_upto upto in_range fits len_eq le_ok Nat.add Nat.sub Nat.mul Nat.min length seq xorb xor_into nth upd_nth
@@ -212,7 +224,7 @@ Ltac ev_in H :=
 Ltac eval_sub t :=
   let r := fresh "r" in let H := fresh "Hr" in
   remember t as r eqn:H; ev_in H;
-  repeat (progress (rewrite ?in_range_true, ?fits_true, ?len_eq_true, ?le_ok_true, ?len_eq_false in H by solve_len); ev_in H);
+  repeat (progress (repeat check1_in H); ev_in H);
   rewrite H; clear r H; cbv beta iota.
 
 (* the callee frame of [call_src] *)
